@@ -138,10 +138,92 @@ Qed.
 Lemma named_comp_iff p : named_comp (p_comp p) = true <-> comp_named p.
 Proof. unfold named_comp, comp_named. rewrite orb_true_iff, !bytes_eqb_eq. tauto. Qed.
 
+(* ----- Validate AS IT IS NOW: it accepts exactly the property's valid sets ----- *)
+
+Lemma text_utf8_valid_text p : text_utf8 p = valid_text p.
+Proof. reflexivity. Qed.
+
 Lemma validate_spec p :
-  validate p = if valid_spec p then Some (validated_spec p) else None.
+  validate p = if valid_set p then Some (validated_spec p) else None.
 Proof.
-  unfold validate, valid_spec, validated_spec, known_enc, named_comp, check_bits, in_range.
+  unfold validate, valid_set, validated_spec, valid_text, text_utf8, known_enc, named_comp, level_out, bits_out, in_range.
+  destruct p as [enc comp lv bt tid rc tgid cnt idx];
+    cbn [p_enc p_comp p_level p_bits p_tid p_tgid set_level].
+  destruct (utf8_valid enc && utf8_valid comp && utf8_valid tid && utf8_valid tgid); cbn [negb];
+    [rewrite andb_true_r | rewrite andb_false_r; reflexivity].
+  destruct (is_nil enc || bytes_eqb enc enc_json || bytes_eqb enc enc_proto); cbn [negb andb]; [|reflexivity].
+  destruct (is_nil comp) eqn:Ec; cbn [orb].
+  - apply is_nil_true in Ec; subst comp. change (bytes_eqb [] comp_pm || bytes_eqb [] comp_cto) with false.
+    destruct lv as [l|]; destruct bt as [w|];
+      repeat match goal with
+             | |- context [(?a <? ?b)%Z] => destruct (Z.ltb_spec a b)
+             | |- context [(?a <=? ?b)%Z] => destruct (Z.leb_spec a b)
+             end; cbn; try reflexivity; try lia.
+  - destruct (bytes_eqb comp comp_pm || bytes_eqb comp comp_cto);
+    destruct lv as [l|]; destruct bt as [w|];
+      repeat match goal with
+             | |- context [(?a <? ?b)%Z] => destruct (Z.ltb_spec a b)
+             | |- context [(?a <=? ?b)%Z] => destruct (Z.leb_spec a b)
+             end; cbn; try reflexivity; try lia.
+Qed.
+
+(* unconditionally: Validate rejects iff the set is not valid *)
+Lemma validate_rejects_iff_invalid p : validate p = None <-> valid_set p = false.
+Proof. rewrite validate_spec. destruct (valid_set p); split; congruence. Qed.
+
+Lemma validate_accepts p : valid_set p = true -> validate p = Some (validated_spec p).
+Proof. intros H. now rewrite validate_spec, H. Qed.
+
+Lemma in_range_false lo hi o : in_range lo hi o = false <-> exists z, o = Some z /\ (z < lo \/ hi < z)%Z.
+Proof.
+  unfold in_range. destruct o as [z|].
+  - rewrite andb_false_iff, !Z.leb_gt. split.
+    + intros H. exists z. split; [reflexivity | tauto].
+    + intros (z' & E & H). injection E as <-. tauto.
+  - split; [discriminate | intros (z & E & _); discriminate].
+Qed.
+
+(* the same, spelled out defect by defect *)
+Lemma validate_rejects_iff p :
+  validate p = None <->
+  valid_text p = false \/ (~ enc_known p) \/ (p_comp p <> [] /\ ~ comp_named p)
+  \/ (exists l, p_level p = Some l /\ (l < 0 \/ 9 < l)%Z)
+  \/ (exists w, p_bits p = Some w /\ (w < 0 \/ 32 < w)%Z).
+Proof.
+  rewrite validate_rejects_iff_invalid. unfold valid_set.
+  rewrite !andb_false_iff, !in_range_false, <- known_enc_iff, <- named_comp_iff.
+  assert (C : is_nil (p_comp p) || named_comp (p_comp p) = false <->
+              p_comp p <> [] /\ named_comp (p_comp p) <> true).
+  { destruct (is_nil (p_comp p)) eqn:E1; destruct (named_comp (p_comp p)) eqn:E2; cbn [orb].
+    - apply is_nil_true in E1. split; [discriminate | intros [H _]; congruence].
+    - apply is_nil_true in E1. split; [discriminate | intros [H _]; congruence].
+    - split; [discriminate | intros [_ H]; congruence].
+    - split; [intros _ | reflexivity]. split; [intros E; rewrite E in E1; discriminate | discriminate]. }
+  rewrite C, <- (not_true_iff_false (known_enc (p_enc p))). tauto.
+Qed.
+
+(* what Validate lets through is in range: CompressConfig can no longer be handed a level
+   outside 0..9 or window bits outside 0..32 by a validated set *)
+Lemma validated_in_range p p' : validate p = Some p' ->
+  in_range 0 9 (p_level p') = true /\ in_range 0 32 (p_bits p') = true /\ valid_set p' = true.
+Proof.
+  destruct p as [enc comp lv bt tid rc tgid cnt idx]. rewrite validate_spec.
+  destruct (valid_set _) eqn:V; [|discriminate]. intros H; injection H as <-.
+  unfold valid_set, valid_text in V |- *. unfold validated_spec, set_level.
+  cbn [p_enc p_comp p_level p_bits p_tid p_tgid] in *.
+  rewrite !andb_true_iff in V. destruct V as [[[[Ha Hc] Hr] Hw] Ht].
+  destruct (named_comp comp) eqn:Hn; [destruct lv as [l|]|]; rewrite ?Hn in Hc;
+    cbn [p_enc p_comp p_level p_bits p_tid p_tgid];
+    rewrite ?Ha, ?Hn, ?Hc, ?Hr, ?Hw, ?orb_true_r; cbn;
+    destruct Ht as [[[H1 H2] H3] H4]; rewrite H1, H2, H3, H4; auto.
+Qed.
+
+(* ----- the FORMER Validate (findings F26, F27) ----- *)
+
+Lemma validate_former_spec p :
+  validate_former p = if valid_spec p then Some (validated_spec p) else None.
+Proof.
+  unfold validate_former, valid_spec, validated_spec, known_enc, named_comp, check_bits, in_range.
   destruct p as [enc comp lv bt tid rc tgid cnt idx]; cbn [p_enc p_comp p_level p_bits set_level].
   destruct (is_nil enc || bytes_eqb enc enc_json || bytes_eqb enc enc_proto); cbn [negb andb]; [|reflexivity].
   destruct (is_nil comp) eqn:Ec; cbn [orb].
@@ -154,14 +236,14 @@ Proof.
              end; cbn; try reflexivity; try lia.
 Qed.
 
-(* rejection, as an exact characterisation *)
-Lemma validate_rejects_iff p :
-  validate p = None <->
+(* rejection by the former Validate, as an exact characterisation *)
+Lemma validate_former_rejects_iff p :
+  validate_former p = None <->
   (~ enc_known p) \/ (p_comp p <> [] /\ ~ comp_named p)
   \/ (comp_named p /\ exists l, p_level p = Some l /\ (l < 0 \/ 9 < l)%Z)
   \/ (comp_named p /\ exists w, p_bits p = Some w /\ (w < 0 \/ 32 < w)%Z).
 Proof.
-  rewrite validate_spec. unfold valid_spec.
+  rewrite validate_former_spec. unfold valid_spec.
   rewrite <- known_enc_iff, <- named_comp_iff.
   destruct (known_enc (p_enc p)); cbn [andb].
   2:{ split; [intros _; left; congruence | reflexivity]. }
@@ -182,8 +264,8 @@ Proof.
     all: try (right; right; right; split; [reflexivity|]; eexists; split; [reflexivity|]; lia).
 Qed.
 
-Lemma validate_accepts p : valid_spec p = true -> validate p = Some (validated_spec p).
-Proof. intros H. now rewrite validate_spec, H. Qed.
+Lemma validate_former_accepts p : valid_spec p = true -> validate_former p = Some (validated_spec p).
+Proof. intros H. now rewrite validate_former_spec, H. Qed.
 
 (* ---------- CompressConfig ---------- *)
 
@@ -302,9 +384,9 @@ Definition emitted (p : params) (x : bytes * bytes) : Prop :=
   \/ x = (k_tgid, sanitize (p_tgid p)) \/ x = (k_tgcount, print_int (p_tgcount p))
   \/ x = (k_tgidx, print_int (p_tgidx p)).
 
-Lemma marshal_kv_emitted p x : In x (marshal_kv p) -> emitted p x.
+Lemma marshal_kv_emitted p x : In x (kv_pairs p) -> emitted p x.
 Proof.
-  unfold marshal_kv, emitted. rewrite !in_app_iff.
+  unfold kv_pairs, emitted. rewrite !in_app_iff.
   intros [H|[H|[H|[H|[H|[H|[H|[H|H]]]]]]]].
   - destruct (is_nil (p_enc p)); cbn in H; intuition.
   - destruct (is_nil (p_comp p)); cbn in H; intuition.
@@ -394,12 +476,12 @@ Proof. intros H1 H2. cbn [kv_step fst snd]. now rewrite H2, H1. Qed.
 
 (* in struct order, starting from the zero value, the fold rebuilds the set *)
 Lemma fold_marshal_kv p : transportable_p p ->
-  fold_left kv_step (marshal_kv p) (Some p0) = Some p.
+  fold_left kv_step (kv_pairs p) (Some p0) = Some p.
 Proof.
   intros (He & Hc & Ht & Hg & Hl & Hb & Hn & Hi).
   destruct p as [enc comp lv bt tid rc tgid cnt idx].
   cbn [p_enc p_comp p_level p_bits p_tid p_reconnect p_tgid p_tgcount p_tgidx] in *.
-  unfold marshal_kv. cbn [p_enc p_comp p_level p_bits p_tid p_reconnect p_tgid p_tgcount p_tgidx].
+  unfold kv_pairs. cbn [p_enc p_comp p_level p_bits p_tid p_reconnect p_tgid p_tgcount p_tgidx].
   rewrite !fold_left_app.
   assert (S1 : fold_left kv_step (if is_nil enc then [] else [(k_enc, sanitize enc)]) (Some p0)
                = Some (mkP enc [] None None [] false [] 0 0)).
@@ -455,13 +537,26 @@ Proof.
   cbn [store_field]. rewrite store_int_print by auto. reflexivity.
 Qed.
 
+(* every emitted pair is UTF-8 text when the set's text is *)
+Lemma emitted_utf8 p x : transportable_p p -> emitted p x ->
+  utf8_valid (fst x) && utf8_valid (snd x) = true.
+Proof.
+  intros (He & Hc & Ht & Hg & _) Hx.
+  assert (V : forall z, utf8_valid (print_int z) = true) by (intros; apply ascii_valid, print_int_ascii).
+  destruct Hx as [H|[H|[(z & Hz & H)|[(z & Hz & H)|[H|[H|[H|[H|H]]]]]]]]; subst x; cbn [fst snd];
+    rewrite ?V, ?sanitize_valid by assumption; rewrite ?He, ?Hc, ?Ht, ?Hg; reflexivity.
+Qed.
+
 (* key/value round trip, for every order of the emitted pairs *)
-Lemma kv_roundtrip p q : transportable_p p -> Permutation q (marshal_kv p) ->
+Lemma kv_roundtrip p q : transportable_p p -> Permutation q (kv_pairs p) ->
   unmarshal_kv q = Some p.
 Proof.
   intros Ht HP. unfold unmarshal_kv, unmarshal_kv_into.
   assert (Hem : forall x, In x q -> emitted p x).
   { intros x Hx. apply marshal_kv_emitted. eapply Permutation_in; eauto. }
+  assert (kv_text_ok q = true) as ->.
+  { apply forallb_forall. intros x Hx. apply (emitted_utf8 p); auto. }
+  cbn [negb]. unfold unmarshal_kv_into_former.
   assert (existsb bad_reconnect q = false) as ->.
   { destruct (existsb bad_reconnect q) eqn:E; [|reflexivity].
     apply existsb_exists in E as (x & Hx & Hb). rewrite (emitted_not_bad_reconnect p x) in Hb by auto. discriminate. }
@@ -487,7 +582,7 @@ Proof.
   intros [H|[H|[(z & Hz & H)|[(z & Hz & H)|[H|[H|[H|[H|H]]]]]]]]; subst x; discriminate.
 Qed.
 
-Lemma url_roundtrip p q : transportable_p p -> Permutation q (marshal_kv p) ->
+Lemma url_roundtrip p q : transportable_p p -> Permutation q (kv_pairs p) ->
   unmarshal_url (singletons q) = Some p.
 Proof.
   intros Ht HP. unfold unmarshal_url, unmarshal_url_into. rewrite url_to_kv_singletons.
@@ -495,7 +590,7 @@ Proof.
   - intros kv Hk. apply (emitted_key_nonempty p), marshal_kv_emitted. eapply Permutation_in; eauto.
 Qed.
 
-Lemma marshal_url_singletons p : marshal_url p = singletons (marshal_kv p).
+Lemma url_of_kv_singletons l : url_of_kv l = singletons l.
 Proof. reflexivity. Qed.
 
 (* ---------- binary form ---------- *)
@@ -579,7 +674,7 @@ Qed.
 
 (* emitted pairs are well-formed entries when the values fit the 16-bit length prefix *)
 Definition short_values (p : params) : Prop :=
-  forall kv, In kv (marshal_kv p) -> N.of_nat (length (snd kv)) < 65536.
+  forall kv, In kv (kv_pairs p) -> N.of_nat (length (snd kv)) < 65536.
 
 Lemma sanitize_idem_valid l : utf8_valid l = true -> utf8_valid (sanitize l) = true.
 Proof. intros H. now rewrite sanitize_valid. Qed.
@@ -593,9 +688,9 @@ Proof.
     auto using sanitize_idem_valid.
 Qed.
 
-Lemma emitted_keys_nodup p : NoDup (map fst (marshal_kv p)).
+Lemma emitted_keys_nodup p : NoDup (map fst (kv_pairs p)).
 Proof.
-  unfold marshal_kv.
+  unfold kv_pairs.
   destruct (is_nil (p_enc p)), (is_nil (p_comp p)), (p_level p), (p_bits p), (is_nil (p_tid p)),
     (p_reconnect p), (is_nil (p_tgid p)), (p_tgcount p =? 0)%Z, (p_tgidx p =? 0)%Z;
     cbn [app map fst];
@@ -604,13 +699,13 @@ Proof.
 Qed.
 
 (* binary round trip, for every order in which the pairs may be written *)
-Lemma bin_roundtrip p q : transportable_p p -> short_values p -> Permutation q (marshal_kv p) ->
+Lemma bin_roundtrip p q : transportable_p p -> short_values p -> Permutation q (kv_pairs p) ->
   unmarshal_bin (frames q) = Some p.
 Proof.
   intros Ht Hs HP. unfold unmarshal_bin, unmarshal_bin_into. rewrite read_bin_frames.
   - now apply kv_roundtrip.
   - apply Forall_forall. intros x Hx.
-    assert (In x (marshal_kv p)) by (eapply Permutation_in; eauto).
+    assert (In x (kv_pairs p)) by (eapply Permutation_in; eauto).
     apply (emitted_entry_ok p); auto using marshal_kv_emitted.
   - eapply Permutation_NoDup; [apply Permutation_sym, Permutation_map, HP | apply emitted_keys_nodup].
 Qed.
@@ -801,7 +896,7 @@ Lemma kv_rejects_bad_number init l k v :
   In (k, v) l -> numeric_key k -> utf8_valid v = true -> v <> b_null -> parse_int v = None ->
   unmarshal_kv_into init l = None.
 Proof.
-  intros Hin Hk Hu Hn Hp. unfold unmarshal_kv_into.
+  intros Hin Hk Hu Hn Hp. unfold unmarshal_kv_into. destruct (kv_text_ok l); cbn [negb]; [|reflexivity]. unfold unmarshal_kv_into_former.
   destruct (existsb bad_reconnect l); [reflexivity|].
   apply (fold_kv_hits _ _ (k, v)).
   - eapply Permutation_in; [apply Permutation_sym, sort_by_perm | exact Hin].
@@ -819,7 +914,7 @@ Qed.
 Lemma kv_rejects_bad_bool init l v :
   In (k_reconnect, v) l -> v <> b_true -> v <> b_false -> unmarshal_kv_into init l = None.
 Proof.
-  intros Hin H1 H2. unfold unmarshal_kv_into.
+  intros Hin H1 H2. unfold unmarshal_kv_into. destruct (kv_text_ok l); cbn [negb]; [|reflexivity]. unfold unmarshal_kv_into_former.
   assert (existsb bad_reconnect l = true) as ->; [|reflexivity].
   apply existsb_exists. exists (k_reconnect, v). split; [exact Hin|].
   unfold bad_reconnect. cbn [fst snd]. apply bytes_eqb_neq in H1, H2. now rewrite H1, H2.
@@ -829,7 +924,7 @@ Qed.
 Lemma kv_rejects_folded_reconnect init l k v :
   In (k, v) l -> field_of_key (sanitize k) = Some (FReconnect, false) -> unmarshal_kv_into init l = None.
 Proof.
-  intros Hin Hk. unfold unmarshal_kv_into. destruct (existsb bad_reconnect l); [reflexivity|].
+  intros Hin Hk. unfold unmarshal_kv_into. destruct (kv_text_ok l); cbn [negb]; [|reflexivity]. unfold unmarshal_kv_into_former. destruct (existsb bad_reconnect l); [reflexivity|].
   apply (fold_kv_hits _ _ (k, v)).
   - eapply Permutation_in; [apply Permutation_sym, sort_by_perm | exact Hin].
   - intros s. cbn [kv_step fst snd]. now rewrite Hk.
@@ -865,7 +960,7 @@ Qed.
 (* what the client transport computes from its own dial configuration, and what a peer
    computes from the transmitted parameters with any local base, are the same settings *)
 Lemma peers_agree dc q base :
-  transportable_p (dial_params dc) -> Permutation q (marshal_kv (dial_params dc)) ->
+  transportable_p (dial_params dc) -> Permutation q (kv_pairs (dial_params dc)) ->
   exists p', unmarshal_kv q = Some p' /\
     effective (compress_config p' base) = effective (compress_config (dial_params dc) (dc_comp dc)).
 Proof.
@@ -903,12 +998,12 @@ Qed.
 Lemma long_value_misread_b :
   oparams_eqb (validate long_p) (Some long_p) && transportable long_p
   && (N.of_nat (length long_tid) =? 65536)
-  && oparams_eqb (unmarshal_bin (frames (marshal_kv long_p))) (Some (mkP enc_json [] None None [] false [] 0 0)) = true.
+  && oparams_eqb (unmarshal_bin (frames (kv_pairs long_p))) (Some (mkP enc_json [] None None [] false [] 0 0)) = true.
 Proof. vm_compute. reflexivity. Qed.
 
 Lemma long_value_misread :
   exists p p', validate p = Some p /\ transportable_p p /\
-               unmarshal_bin (frames (marshal_kv p)) = Some p' /\ p_tid p' <> p_tid p.
+               unmarshal_bin (frames (kv_pairs p)) = Some p' /\ p_tid p' <> p_tid p.
 Proof.
   exists long_p, (mkP enc_json [] None None [] false [] 0 0).
   pose proof long_value_misread_b as H.
@@ -919,18 +1014,30 @@ Proof.
   unfold long_p, long_tid. cbn [p_tid app]. discriminate.
 Qed.
 
-(* text that is not UTF-8 is silently replaced by U+FFFD on the way out (every carrier) *)
-Lemma non_utf8_altered :
+(* F26, about the FORMER code (repaired in /repo by 1a00ab3): text that is not UTF-8 was accepted by
+   Validate and silently replaced by U+FFFD on the way out (every carrier) ... *)
+Lemma former_non_utf8_altered :
   let p := mkP [] [] None None [255] false [] 0 0 in
-  validate p = Some p /\ unmarshal_kv (marshal_kv p) = Some (mkP [] [] None None [239; 191; 189] false [] 0 0).
+  validate_former p = Some p /\
+  unmarshal_kv_into_former p0 (marshal_kv_former p) = Some (mkP [] [] None None [239; 191; 189] false [] 0 0).
 Proof. vm_compute. split; reflexivity. Qed.
+(* ... as it is now, the same set is refused by Validate and by every writer *)
+Lemma non_utf8_now_refused :
+  let p := mkP [] [] None None [255] false [] 0 0 in
+  validate p = None /\ marshal_kv p = None /\ marshal_url p = None /\ marshal_bin_checked (fun l => l) p = None.
+Proof. vm_compute. repeat split; reflexivity. Qed.
 
-(* Validate does not look at level or window bits when no compression type is named, yet
-   CompressConfig enables compression from the level alone *)
-Lemma level_unchecked_without_type :
+(* F27, about the FORMER Validate (repaired in /repo by 20ec58b): it did not look at level or
+   window bits when no compression type was named, yet CompressConfig enables compression from
+   the level alone *)
+Lemma former_level_unchecked_without_type :
   let p := mkP [] [] (Some 99%Z) (Some 77%Z) [] false [] 0 0 in
-  validate p = Some p /\ forall base, effective (compress_config p base) = Enabled (c_dct base) 99%Z 77%Z.
+  validate_former p = Some p /\ forall base, effective (compress_config p base) = Enabled (c_dct base) 99%Z 77%Z.
 Proof. split; [reflexivity | intros base; reflexivity]. Qed.
+Lemma level_without_type_now_refused :
+  validate (mkP [] [] (Some 99%Z) (Some 77%Z) [] false [] 0 0) = None
+  /\ validate (mkP [] [] (Some 5%Z) (Some (-1)%Z) [] false [] 0 0) = None.
+Proof. split; reflexivity. Qed.
 
 (* ---------- the property's notion of a valid set ([valid_set]) against Validate ---------- *)
 
@@ -943,7 +1050,7 @@ Qed.
 
 (* every valid set is accepted; the only change Validate makes is filling in level 6 *)
 Lemma valid_set_accepted p : valid_set p = true -> validate p = Some (validated_spec p).
-Proof. intros H. apply validate_accepts, valid_set_valid_spec, H. Qed.
+Proof. exact (validate_accepts p). Qed.
 
 Lemma in_range_int64 lo hi o : (int64_min <= lo)%Z -> (hi <= int64_max)%Z ->
   in_range lo hi o = true -> forall z, o = Some z -> in_int64 z = true.
@@ -964,15 +1071,18 @@ Proof.
   - apply (in_range_int64 0 32); [unfold int64_min | unfold int64_max |]; auto; lia.
 Qed.
 
-(* invalid sets are rejected by Validate - outside the two shapes of the findings:
-   F26 (text that is not UTF-8 is not looked at) and F27 (level / window bits are not looked at
-   when no compression type is named) *)
-Lemma invalid_rejected p :
+(* invalid sets are rejected by Validate - every one of them (no exception any more: F26 and F27
+   are repaired) *)
+Lemma invalid_rejected p : validate p = None <-> valid_set p = false.
+Proof. exact (validate_rejects_iff_invalid p). Qed.
+
+(* the former Validate rejected invalid sets only outside the shapes of F26 and F27 *)
+Lemma former_invalid_rejected p :
   valid_text p = true ->
   (p_comp p = [] -> in_range 0 9 (p_level p) && in_range 0 32 (p_bits p) = true) ->
-  (validate p = None <-> valid_set p = false).
+  (validate_former p = None <-> valid_set p = false).
 Proof.
-  intros Ht Hn. rewrite validate_spec.
+  intros Ht Hn. rewrite validate_former_spec.
   assert (E : valid_spec p = valid_set p).
   { unfold valid_spec, valid_set. rewrite Ht, andb_true_r.
     destruct (known_enc (p_enc p)); cbn [andb]; [|reflexivity].
@@ -982,11 +1092,49 @@ Proof.
   rewrite E. destruct (valid_set p); split; congruence.
 Qed.
 
-(* F25 stated on the former writer by name *)
-Lemma former_writer_long_value_misread :
-  exists p p', validate p = Some p /\ transportable_p p /\
-               unmarshal_bin (marshal_bin_former (fun l => l) p) = Some p' /\ p_tid p' <> p_tid p.
-Proof. exact long_value_misread. Qed.
+(* ---------- MarshalKeyValues / UnmarshalKeyValues as they are now (UTF-8 checks) ---------- *)
+
+Lemma transportable_text p : transportable_p p -> text_utf8 p = true.
+Proof. intros (He & Hc & Ht & Hg & _). unfold text_utf8. now rewrite He, Hc, Ht, Hg. Qed.
+
+Lemma marshal_kv_some p : transportable_p p -> marshal_kv p = Some (kv_pairs p).
+Proof. intros H. unfold marshal_kv. now rewrite transportable_text. Qed.
+
+(* the writer refuses exactly the sets whose text is not UTF-8 *)
+Lemma marshal_kv_refuses_iff p : marshal_kv p = None <-> valid_text p = false.
+Proof. unfold marshal_kv. rewrite text_utf8_valid_text. destruct (valid_text p); split; congruence. Qed.
+
+(* key/value round trip through the writer as it is now, every order of the emitted pairs *)
+Lemma kv_roundtrip_now p l q : transportable_p p -> marshal_kv p = Some l -> Permutation q l ->
+  unmarshal_kv q = Some p.
+Proof. intros Ht E HP. rewrite marshal_kv_some in E by exact Ht. injection E as <-. now apply kv_roundtrip. Qed.
+
+Lemma url_roundtrip_now p u q : transportable_p p -> marshal_url p = Some u -> Permutation q u ->
+  unmarshal_url q = Some p.
+Proof.
+  intros Ht E HP. unfold marshal_url in E. rewrite marshal_kv_some in E by exact Ht. cbn in E. injection E as <-.
+  unfold url_of_kv in HP. apply Permutation_map_inv in HP as (q' & -> & HP').
+  apply (url_roundtrip p q' Ht). now apply Permutation_sym.
+Qed.
+
+(* the readers refuse a map in which any key or value is not UTF-8 - whatever else it holds *)
+Lemma kv_rejects_non_utf8 init l : kv_text_ok l = false -> unmarshal_kv_into init l = None.
+Proof. intros H. unfold unmarshal_kv_into. now rewrite H. Qed.
+
+Lemma url_rejects_non_utf8 init vals k v :
+  In (k, [v]) vals -> utf8_valid k && utf8_valid v = false -> unmarshal_url_into init vals = None.
+Proof.
+  intros Hin Hu. unfold unmarshal_url_into. destruct (url_to_kv vals) as [l|] eqn:E; [|reflexivity].
+  apply kv_rejects_non_utf8.
+  assert (Hl : In (k, v) l).
+  { revert l E. induction vals as [|e vals IH]; intros l E; [destruct Hin|]. cbn [url_to_kv] in E.
+    destruct (url_entry e) as [kv|] eqn:Ee; [|discriminate]. destruct (url_to_kv vals) as [l'|]; [|discriminate].
+    injection E as <-. destruct Hin as [->|Hin].
+    - unfold url_entry in Ee. cbn [fst snd] in Ee. destruct (is_nil k); [discriminate|]. injection Ee as <-. now left.
+    - right. now apply IH. }
+  unfold kv_text_ok. destruct (forallb _ l) eqn:F; [|reflexivity].
+  rewrite forallb_forall in F. specialize (F _ Hl). cbn [fst snd] in F. congruence.
+Qed.
 
 (* ---------- the binary writer as it is now (checks the 16-bit bound; fix of F25) ---------- *)
 
@@ -999,24 +1147,27 @@ Lemma bin_roundtrip_checked p order b :
   transportable_p p -> (forall l, Permutation (order l) l) ->
   marshal_bin_checked order p = Some b -> unmarshal_bin b = Some p.
 Proof.
-  intros Ht Ho. unfold marshal_bin_checked.
-  destruct (forallb fits16 (order (marshal_kv p))) eqn:E; [|discriminate].
+  intros Ht Ho. unfold marshal_bin_checked. rewrite marshal_kv_some by exact Ht.
+  destruct (forallb fits16 (order (kv_pairs p))) eqn:E; [|discriminate].
   intros H; injection H as <-. apply bin_roundtrip; [exact Ht | | apply Ho].
   intros kv Hin. apply fits16_short. rewrite forallb_forall in E. apply E.
   eapply Permutation_in; [apply Permutation_sym, Ho | exact Hin].
 Qed.
 
+(* the writer refuses iff the text is not UTF-8 or some key/value does not fit 16 bits *)
 Lemma bin_checked_refuses_iff p order : (forall l, Permutation (order l) l) ->
-  (marshal_bin_checked order p = None <-> exists kv, In kv (marshal_kv p) /\ fits16 kv = false).
+  (marshal_bin_checked order p = None <->
+   valid_text p = false \/ exists kv, In kv (kv_pairs p) /\ fits16 kv = false).
 Proof.
-  intros Ho. unfold marshal_bin_checked.
-  destruct (forallb fits16 (order (marshal_kv p))) eqn:E; split; try discriminate; try reflexivity.
-  - intros (kv & Hin & Hf). rewrite forallb_forall in E.
+  intros Ho. unfold marshal_bin_checked, marshal_kv. rewrite text_utf8_valid_text.
+  destruct (valid_text p); [|split; [now left | reflexivity]].
+  destruct (forallb fits16 (order (kv_pairs p))) eqn:E; split; try discriminate; try reflexivity.
+  - intros [H|(kv & Hin & Hf)]; [discriminate|]. rewrite forallb_forall in E.
     rewrite E in Hf; [discriminate|]. eapply Permutation_in; [apply Permutation_sym, Ho | exact Hin].
-  - intros _. destruct (forallb fits16 (marshal_kv p)) eqn:E2.
-    + rewrite forallb_forall in E2. assert (forallb fits16 (order (marshal_kv p)) = true); [|congruence].
+  - intros _. right. destruct (forallb fits16 (kv_pairs p)) eqn:E2.
+    + rewrite forallb_forall in E2. assert (forallb fits16 (order (kv_pairs p)) = true); [|congruence].
       apply forallb_forall. intros x Hx. apply E2. eapply Permutation_in; [apply Ho | exact Hx].
-    + clear E. induction (marshal_kv p) as [|x l IH]; [discriminate|]. cbn [forallb] in E2.
+    + clear E. induction (kv_pairs p) as [|x l IH]; [discriminate|]. cbn [forallb] in E2.
       destruct (fits16 x) eqn:Ex.
       * destruct (IH E2) as (kv & Hin & Hf). exists kv. split; [now right | exact Hf].
       * exists x. split; [now left | exact Ex].
@@ -1035,18 +1186,22 @@ Lemma longest_value_carried :
   end = true.
 Proof. vm_compute. reflexivity. Qed.
 
-(* F27, second half: the same set (no type named) gives two peers with different local defaults
-   different modes - the settings are not a function of the parameters *)
-Lemma level_without_type_depends_on_base :
+(* NOT a finding: the property's third clause speaks of sets that NAME their type.  A valid set
+   without a type (level and window in range) is accepted, and then the mode comes from the local
+   default - the hypothesis "names its compression type" of config_function is necessary. *)
+Lemma config_needs_named_type :
   let p := mkP [] [] (Some 5%Z) (Some 8%Z) [] false [] 0 0 in
   validate p = Some p /\
   effective (compress_config p (mkC false 0 true 0)) <> effective (compress_config p (mkC false 0 false 0)).
 Proof. split; [reflexivity | discriminate]. Qed.
 
-(* F26 through the readers: a key/value map (e.g. a URL query) holding a byte string that is
-   not UTF-8 is accepted, with U+FFFD in its place, while the binary reader refuses the same pair *)
-Lemma non_utf8_accepted_by_kv_reader :
-  unmarshal_kv [(k_tid, [255])] = Some (mkP [] [] None None [239; 191; 189] false [] 0 0)
-  /\ unmarshal_url [(k_tid, [[255]])] = Some (mkP [] [] None None [239; 191; 189] false [] 0 0)
+(* F26 through the FORMER readers: a key/value map (e.g. a URL query) holding a byte string that
+   is not UTF-8 was accepted, with U+FFFD in its place ... *)
+Lemma former_non_utf8_accepted_by_kv_reader :
+  unmarshal_kv_into_former p0 [(k_tid, [255])] = Some (mkP [] [] None None [239; 191; 189] false [] 0 0).
+Proof. vm_compute. reflexivity. Qed.
+(* ... as they are now, all three readers refuse it *)
+Lemma non_utf8_now_refused_by_readers :
+  unmarshal_kv [(k_tid, [255])] = None /\ unmarshal_url [(k_tid, [[255]])] = None
   /\ unmarshal_bin (frames [(k_tid, [255])]) = None.
 Proof. vm_compute. repeat split; reflexivity. Qed.
